@@ -21,6 +21,14 @@ DEFAULT_POSITIVE = (
 _CMP = {ast.Gt: "gt", ast.GtE: "ge", ast.Lt: "lt", ast.LtE: "le", ast.Eq: "eq", ast.NotEq: "ne"}
 
 
+def _mark_scalar(c):
+    """Conditions of Python `if` / conditional expressions have a single truth value per call."""
+    if isinstance(c, Rat):
+        d: dict = {}
+        nf._atomic_conds(c, d)
+        nf.SCALAR_CONDS.update(d.keys())
+
+
 class Opaque(Exception):
     pass
 
@@ -185,6 +193,7 @@ class Builder:
 
     def e_IfExp(self, e):
         c = self.t(e.test)
+        _mark_scalar(c)
         return self.ite(c, lambda b: b.t(e.body), lambda b: b.t(e.orelse))
 
     def ite(self, c, fa, fb):
@@ -449,6 +458,7 @@ class Builder:
                     return self.run(st.orelse + rest)
                 if not isinstance(c, Rat):
                     c = app("truth", c)
+                _mark_scalar(c)
                 ba = self.child(dict(self.env), self.facts.assume(c, True))
                 bb = self.child(dict(self.env), self.facts.assume(c, False))
                 ra = ba.run(st.body + rest)
